@@ -10,8 +10,8 @@ SPEC = {
  "props": [
   "props/C02.vo"
  ],
- "tie": ["tie/HandleEquiv.vo", "tie/EditEquiv.vo"],
- "gen_items": ["src/bytes/raw/allocated.rs:slice_unchecked + explicit_clone", "src/bytes.rs:truncate pop shrink_to push_slice push clear repeat with_capacity as_mut_* to_mut_slice; raw.rs:make_unique take_vec; allocated.rs:shrink_to as_mut_*"],
+ "tie": ["tie/HandleEquiv.vo", "tie/CorePinned.vo", "tie/EditEquiv.vo"],
+ "gen_items": ["src/bytes/raw/allocated.rs:slice_unchecked + explicit_clone", "src/bytes/raw*.rs + src/smart.rs:pinned bodies", "src/bytes.rs:truncate pop shrink_to push_slice push clear repeat with_capacity as_mut_* to_mut_slice; raw.rs:make_unique take_vec; allocated.rs:shrink_to as_mut_*"],
  "tieA_required": True,
  "case_libs": [
   "theories/CasesBytes.vo"
